@@ -8,7 +8,7 @@ from props import _design as D
 from props._design import describe, nontrivial, unsupported, prepare, CASE_TIMEOUT  # noqa: F401
 
 ID = "C03"
-PROP_FILES = ["Properties/C03.v", "Properties/C03_rank.v"]
+PROP_FILES = ["Properties/C03.v", "Properties/C03_rank.v", "Properties/C03_numeric_part.v"]
 THEOREMS = ["C03_pick_contrasts_partition", "C03_covered_exactly_once", "C03_absorb_never_fails",
             "C03_simplify_preserves", "C03_example_two_factor", "C03_refuted_single_coding"]
 ASSUMPTIONS = ["complete-factorial replicated data; numeric columns are random integers (general position)",
